@@ -72,6 +72,10 @@ def cantilever_loads(seed=0):
         # large loads: several load steps / many Newton iterations are needed
         "Fbig": (np.array([0.3, -4.0, 1.0]), z, None),
         "FMbig": (np.array([0.0, -3.0, 0.5]), np.array([0.5, 0.3, 4.0]), None),
+        # DEAD loads (names starting with 'dead'): not scaled with t, the initial configuration is no equilibrium of load step 0
+        # (a stop in the very first load step; seeded C23-e)
+        "deadFbig": (np.array([0.3, -4.0, 1.0]), z, None),
+        "deadFM": (np.array([0.0, -1.0, 0.3]), np.array([0.2, 0.1, 1.0]), None),
         # displacement control: the tip is held by a spherical joint on a support that moves with t
         "disp": (z, z, np.array([-0.15, 0.35, -0.25])),
         "dispF": (Fg, z, np.array([-0.1, -0.3, 0.2])),
@@ -108,9 +112,9 @@ def build_cantilever(form, load, place, seed=0, contact_gap=None):
         system.add(clamp_frame, rod, clamp)
         if np.any(F):
             Fm = A @ F
-            system.add(Force(lambda t, Fm=Fm: t * Fm, rod, (1,), name="tip_force"))
+            system.add(Force((lambda t, Fm=Fm: Fm) if load.startswith("dead") else (lambda t, Fm=Fm: t * Fm), rod, (1,), name="tip_force"))
         if np.any(M):
-            system.add(B_Moment(lambda t, M=M: t * M, rod, (1,), name="tip_moment"))
+            system.add(B_Moment((lambda t, M=M: M) if load.startswith("dead") else (lambda t, M=M: t * M), rod, (1,), name="tip_moment"))
         if disp is not None:
             tip0 = c + A @ np.array([LENGTH, 0.0, 0.0])
             d = A @ disp
